@@ -47,6 +47,7 @@ GO_RICH = ["-generate_rename", "-generate_append", "-generate_getters", "-genera
 # schema sets: name -> (yang files, include paths); paths relative to the scratch copy unless absolute
 SCHEMAS = {
     "verif-oc": ([S + "/verif-oc.yang"], [S]),
+    "verif-clash": ([S + "/verif-clash.yang"], [S]),
     "cts": (["integration_tests/schemaops/yang/ctestschema.yang", "integration_tests/schemaops/yang/ctestschema-rootmod.yang"], ["integration_tests/schemaops/yang"]),
     "uts": (["integration_tests/schemaops/yang/utestschema.yang", "integration_tests/schemaops/yang/refschema.yang",
              "integration_tests/schemaops/yang/ctestschema.yang", "integration_tests/schemaops/yang/ctestschema-rootmod.yang"], ["integration_tests/schemaops/yang"]),
@@ -83,6 +84,7 @@ PROTO_FLAGSETS = {
 
 QUICK_COMBOS = [
     ("verif-oc", "go", "compress-rich-simple"), ("verif-oc", "go", "uncompressed-rich"), ("verif-oc", "go", "paths"), ("verif-oc", "proto", "proto-hier-compress"),
+    ("verif-clash", "go", "compress-rich-simple"), ("verif-clash", "go", "uncompressed-rich"), ("verif-clash", "go", "paths"), ("verif-clash", "proto", "proto-hier-compress"),
     ("cts", "go", "compress-rich-simple"), ("uts", "go", "uncompressed-rich"), ("tm-enum-module", "go", "compress-opstate"), ("tm-enum-union", "go", "compress-rich-simple"),
     ("tm-openconfig-simple", "go", "paths-split"), ("tm-openconfig-withlist", "go", "compress-wrapper"), ("oc-options", "go", "compress-excludestate"),
     ("pt-proto-test-a", "proto", "proto-flat"), ("pt-proto-enums", "proto", "proto-hier-compress"), ("tm-openconfig-complex", "proto", "proto-nofakeroot"),
@@ -182,6 +184,18 @@ def random_module(seed, outdir):
 
     for ti in range(r.randint(1, 3)):
         L += ["  " + x for x in container(0, ti)]
+    # siblings whose names differ in YANG but collide as CamelCase Go / proto identifiers
+    pairs = [("rate-limit", "rateLimit"), ("peer-group", "peerGroup"), ("q-o-s", "qOS"), ("sys-log", "sys_log"), ("if-index", "ifIndex")]
+    L.append("  container clash-%d {" % seed)
+    for a, b in r.sample(pairs, r.randint(1, 3)):
+        names2 = [a, b]
+        r.shuffle(names2)
+        for nm in names2:
+            if r.randint(0, 1) == 0:
+                L.append("    container %s { %s %s }" % (nm, leaf("x-" + nm[:2]), leaf("val")))
+            else:
+                L.append("    container %ss { list %s { key \"name\"; leaf name { type leafref { path \"../config/name\"; } } container config { leaf name { type string; } %s } container state { config false; leaf name { type string; } %s } } }" % (nm, nm, leaf("val"), leaf("val")))
+    L.append("  }")
     L.append("}")
     path = os.path.join(outdir, name + ".yang")
     with open(path, "w") as f:
